@@ -51,8 +51,9 @@ CHECKS = {
             {"name": "locks", "run": "^TestVerif_C09$",
              "instrument": [job("$REPO", MOD, ["multiepoch.go", "first-success.go"], imports={"golang.org/x/sync/errgroup": MOD + "/zzverif/verrgroup"}), ERRGROUP]},
             {"name": "handlers", "run": "^TestVerif_C09_Handlers$",
-             "harness": ["main/kit_test.go", "main/epochkit_test.go", "main/c18_test.go", "main/c09_test.go", "main/c09_handlers_test.go"],
-             "instrument": [job("$REPO", MOD, ["multiepoch.go", "first-success.go"], imports={"golang.org/x/sync/errgroup": MOD + "/zzverif/verrgroup"}), ERRGROUP] + EPOCH_PERF},
+             "harness": ["main/kit_test.go", "main/epochkit_test.go", "main/grpckit_test.go", "main/c18_test.go", "main/c09_test.go", "main/c09_handlers_test.go"],
+             "instrument": [job("$REPO", MOD, ["multiepoch.go", "first-success.go", "grpc-server.go"], imports={"golang.org/x/sync/errgroup": MOD + "/zzverif/verrgroup"},
+                                maprange=True, maprange_only=["epochToTxns"]), ERRGROUP] + EPOCH_PERF},
             {"name": "race", "run": "^TestVerif_C09_Race$", "race": True, "tiers": ["thorough"], "shards": {"thorough": 1, "quick": 1},
              "harness": ["main/kit_test.go", "main/race_test.go"], "instrument": []},
         ],
